@@ -79,6 +79,14 @@ Theorem C02_leftovers_complete :
 Proof. exact leftovers_complete_lemma. Qed.
 Print Assumptions C02_leftovers_complete.
 
+(* 3c. (towards "no crash") sendChunk never sends on a closed ackerChan: while main is at the select of sendChunk the
+       channel has not been closed and ackerAbort has not been signalled - collectLeftovers runs once per session. *)
+Theorem C02_no_send_on_closed_channel :
+  forall (P : params) (s : state) (f : from) (c : chunk) (ss : sess),
+  reach P s -> pc s = MEnqueue f c -> cur s = Some ss -> s_aclosed ss = false /\ s_abort ss = false.
+Proof. exact no_send_on_closed_lemma. Qed.
+Print Assumptions C02_no_send_on_closed_channel.
+
 (* 4. Progress, PARTIAL.  From any state at a session boundary (run() about to open a connection) without a stop
       request, the healthy continuation - connect ok, every send ok, every ack read returning the id of the chunk
       just sent - of length 5 + 6 * (leftovers + queued) gets every leftover (oldest first) and every queued chunk
